@@ -92,15 +92,17 @@ int main(void) {
         printf("#%ld\n", id); fflush(stdout);
         if (!sigsetjmp(h_jb, 1)) {
             size_t *rp = (flags & 4) ? 0 : &ret;
+            /* flag 64: the library is told the (true) size of the destination object */
+            const size_t KB = ((flags & 64) && dest && dest != noz) ? (size_t)dmax * esz : BOSU;
             mbstate_t *psp = (flags & 16) ? 0 : &g_ps;
             h_armed = 1; alarm(5);
             switch (fn) {
-            case 1: rc = _mbstowcs_s_chk(rp, (wchar_t *)dest, (rsize_t)dmax, (flags & 8) ? 0 : g_mbsrc, (rsize_t)len, BOSU); break;
-            case 2: rc = _mbsrtowcs_s_chk(rp, (wchar_t *)dest, (rsize_t)dmax, (flags & 8) ? 0 : &g_mbp, (rsize_t)len, psp, BOSU); break;
-            case 3: rc = _wcstombs_s_chk(rp, dest, (rsize_t)dmax, (flags & 8) ? 0 : g_wcsrc, (rsize_t)len, BOSU); break;
-            case 4: rc = _wcsrtombs_s_chk(rp, dest, (rsize_t)dmax, (flags & 8) ? 0 : &g_wcp, (rsize_t)len, psp, BOSU); break;
-            case 5: rc = _wcrtomb_s_chk(rp, dest, (rsize_t)dmax, g_wcsrc[0], psp, BOSU); break;
-            case 6: rc = _wctomb_s_chk((flags & 4) ? 0 : &iret, dest, (rsize_t)dmax, g_wcsrc[0], BOSU); ret = iret < 0 ? (size_t)-1 : (size_t)iret; break;
+            case 1: rc = _mbstowcs_s_chk(rp, (wchar_t *)dest, (rsize_t)dmax, (flags & 8) ? 0 : g_mbsrc, (rsize_t)len, KB); break;
+            case 2: rc = _mbsrtowcs_s_chk(rp, (wchar_t *)dest, (rsize_t)dmax, (flags & 8) ? 0 : &g_mbp, (rsize_t)len, psp, KB); break;
+            case 3: rc = _wcstombs_s_chk(rp, dest, (rsize_t)dmax, (flags & 8) ? 0 : g_wcsrc, (rsize_t)len, KB); break;
+            case 4: rc = _wcsrtombs_s_chk(rp, dest, (rsize_t)dmax, (flags & 8) ? 0 : &g_wcp, (rsize_t)len, psp, KB); break;
+            case 5: rc = _wcrtomb_s_chk(rp, dest, (rsize_t)dmax, g_wcsrc[0], psp, KB); break;
+            case 6: rc = _wctomb_s_chk((flags & 4) ? 0 : &iret, dest, (rsize_t)dmax, g_wcsrc[0], KB); ret = iret < 0 ? (size_t)-1 : (size_t)iret; break;
             }
             alarm(0); h_armed = 0;
         } else { alarm(0); fk = h_fault_kind; }
